@@ -470,14 +470,31 @@ class Exec:
         key = (dcls, field)
         if key not in st.heap:
             st.heap[key] = z3.Const('heap!%s.%s' % key, z3.ArraySort(T.RefSort, fty.sort()))
+            r = z3.Int('r!wf')
+            wf = fty.wf(st.heap[key][r])
+            if wf:
+                st.pc.append(z3.ForAll([r], z3.And(*wf), patterns=[st.heap[key][r]]))
+            # first touch: the same initial array is the entry value
+            o = st.old
+            while o is not None:
+                o.heap.setdefault(key, st.heap[key])
+                o = o.old
         return key, fty
 
     def heap_read(self, st, ref_sv, field):
         key, fty = self.heap_arr(st, ref_sv.ty.cls, field)
         return SV(fty, st.heap[key][ref_sv.t])
 
+    def narrow(self, val, ty, st):
+        """XReal -> Real needs a finiteness obligation"""
+        if val.ty is XREAL and ty == T.REAL:
+            self.safety(st, z3.Not(XREAL.is_inf(val.t)), 'finite-float')
+            return SV(T.REAL, XREAL.val(val.t))
+        return val
+
     def heap_write(self, st, ref_sv, field, val):
         key, fty = self.heap_arr(st, ref_sv.ty.cls, field)
+        val = self.narrow(val, fty, st)
         v = coerce(val, fty)
         if v is None:
             raise OutOfSubset('cannot store %s into %s.%s : %s' % (val.ty, key[0], field, fty))
@@ -519,6 +536,14 @@ class Exec:
             return st.ghost[n]
         if n in self.ctx.module_consts:
             return self.ev(self.ctx.module_consts[n], st, want)
+        if self.contract is not None and self.contract.module and self.resolver is not None:
+            try:
+                mod, _, _ = self.resolver.module_ast(self.contract.module)
+                for d in mod.body:
+                    if isinstance(d, ast.FunctionDef) and d.name == n:
+                        return SV(T.Fun([], T.NONE), None, extra=('funcref', n))
+            except Exception:
+                pass
         if n == 'ABSENT':
             return SV(T.TREE, T.TREE.dflt())
         if n == 'EMPTY_NODE':
@@ -944,6 +969,52 @@ class Exec:
     def ev_Lambda(self, node, st, want):
         return SV(T.Fun([], T.NONE), None, extra=('lambda', node, st))
 
+    def ev_DictComp(self, node, st, want):
+        """{kexpr: vexpr for k, v in m.items() if cond}  with kexpr == k  (filter / map over a dict)"""
+        if len(node.generators) != 1:
+            raise OutOfSubset('dict comprehension with several generators')
+        g = node.generators[0]
+        it = g.iter
+        if not (isinstance(it, ast.Call) and isinstance(it.func, ast.Attribute) and it.func.attr == 'items'):
+            if isinstance(it, ast.Attribute) or isinstance(it, ast.Name):
+                # {k: expr for k in m}
+                m = self.ev(it, st)
+                kname, vname = (g.target.id if isinstance(g.target, ast.Name) else None), None
+            else:
+                raise OutOfSubset('dict comprehension source')
+        else:
+            m = self.ev(it.func.value, st)
+            if not (isinstance(g.target, ast.Tuple) and len(g.target.elts) == 2):
+                raise OutOfSubset('dict comprehension target')
+            kname, vname = g.target.elts[0].id, g.target.elts[1].id
+        if not isinstance(m.ty, T.Map):
+            raise OutOfSubset('dict comprehension over %s' % m.ty)
+        if not (isinstance(node.key, ast.Name) and node.key.id == kname):
+            raise OutOfSubset('dict comprehension that renames keys')
+        k = z3.Const('k!dc%d' % next(_fresh_counter), m.ty.key.sort())
+        st2 = st.copy()
+        st2.env[kname] = SV(m.ty.key, k)
+        st2.alias.pop(kname, None)
+        if vname:
+            st2.env[vname] = map_get(m, k)
+            st2.alias.pop(vname, None)
+        has = map_has(m, k)
+        saved = list(self.guards)
+        self.guards.append(has)
+        try:
+            cond = z3.BoolVal(True)
+            for c in g.ifs:
+                cond = z3.And(cond, truthy(self.ev(c, st2)))
+            self.guards.append(cond)
+            want_val = want.val if isinstance(want, T.Map) else None
+            v = self.ev(node.value, st2, want_val)
+        finally:
+            self.guards = saved
+        rty = T.Map(m.ty.key, v.ty)
+        newhas = z3.Lambda([k], z3.And(has, cond))
+        newval = z3.Lambda([k], z3.If(z3.And(has, cond), v.t, v.ty.dflt()))
+        return SV(rty, rty.mk(newhas, newval))
+
     def ev_Call(self, node, st, want):
         from .calls import eval_call
         return eval_call(self, node, st, want)
@@ -971,6 +1042,7 @@ class Exec:
                                           % (n, st.env[n].ty, val.ty))
                     val = coerce(val, u)
             if dt is not None:
+                val = self.narrow(val, dt, st)
                 c = coerce(val, dt)
                 if c is None:
                     raise OutOfSubset('cannot assign %s to %s : %s' % (val.ty, n, dt))
@@ -1097,12 +1169,35 @@ class Exec:
 
     # ---- feasibility -------------------------------------------------------
     def feasible(self, st):
+        """Cheap path pruning: only small, quantifier-free conjuncts of the path condition are used
+        (dropping assumptions can only keep more paths alive, never prune a feasible one)."""
         s = z3.Solver()
-        s.set('timeout', 1500)
+        s.set('timeout', 300)
         s.add(T.atoms_distinct())
-        s.add(*st.pc)
+        for a in st.pc:
+            if _small_qf(a, 150):
+                s.add(a)
         r = s.check()
         if r == z3.unsat:
             self.ctx.infeasible += 1
             return False
         return True
+
+
+def _small_qf(e, cap):
+    """quantifier-free and at most `cap` AST nodes"""
+    seen = set()
+    stack = [e]
+    n = 0
+    while stack:
+        x = stack.pop()
+        i = x.get_id()
+        if i in seen:
+            continue
+        seen.add(i)
+        n += 1
+        if n > cap or z3.is_quantifier(x):
+            return False
+        if z3.is_app(x):
+            stack.extend(x.children())
+    return True
